@@ -309,6 +309,16 @@ class Alt:
         return ("alt", tuple((g, vkey(v)) for g, v in self.alts))
 
 
+class Seq:
+    """A symbolic iterator over a container `src`: every element has the symbolic shape `elem` (index atom `i` when enumerated)."""
+
+    def __init__(self, src, elem, enumerated=False):
+        self.src, self.elem, self.enumerated = src, elem, enumerated
+
+    def key(self):
+        return ("seq", vkey(self.src), vkey(self.elem), self.enumerated)
+
+
 class Clo:
     def __init__(self, params, body, env):
         self.params, self.body, self.env = params, body, env
@@ -320,7 +330,7 @@ class Clo:
 def vkey(v):
     if isinstance(v, Poly):
         return v.key()
-    if isinstance(v, (Rec, Tup, Sym, Alt, Clo)):
+    if isinstance(v, (Rec, Tup, Sym, Alt, Clo, Seq)):
         return v.key()
     if isinstance(v, (tuple, list)):
         return tuple(vkey(x) for x in v)
@@ -336,12 +346,16 @@ def vfmt(v):
         return "(" + ", ".join(vfmt(x) for x in v.items) + ")"
     if isinstance(v, Alt):
         return " | ".join("[%s] %s" % (g, vfmt(x)) for g, x in v.alts)
+    if isinstance(v, Seq):
+        return "seq(%s => %s)" % (vfmt(v.src), vfmt(v.elem))
+    if isinstance(v, Sym) and v.tag and v.tag[0] == "ctor":
+        return "%s(%s)" % (v.tag[1], ", ".join(vfmt(x) for x in v.tag[2:]))
     return repr(v)
 
 
 NUMERIC_ADTS = ("dual::dual::Dual", "dual::dual::Dual2")
 ERASE_METHODS = {"clone", "view", "to_owned", "into", "borrow", "as_ref", "to_vec", "into_owned", "view_mut", "cloned", "copied", "deref", "reborrow"}
-F64_UNARY = {"exp": "exp", "ln": "ln", "sqrt": "sqrt", "trunc": "trunc", "signum": "signum"}
+F64_UNARY = {"exp": "exp", "ln": "ln", "log": "ln", "sqrt": "sqrt", "trunc": "trunc", "signum": "signum"}
 
 
 def operand(name, ty):
@@ -508,6 +522,10 @@ class Ev:
             if op in ("Lt", "Le", "Gt", "Ge") and callee and callee.endswith("partial_cmp") and self.facts.fn(callee) is not None:
                 return Sym("ord", op, vkey(self.apply_fn(callee, [l, r], depth)))
             return Sym("cmp", op, vkey(l), vkey(r))
+        if not (isinstance(l, Poly) and isinstance(r, Poly)) and op in ("Add", "Sub", "Mul", "Div", "Rem"):
+            callee = e.get("resolved") or e.get("callee")
+            if callee and self.facts.fn(callee) is not None:
+                return self.apply_fn(callee, [l, r], depth)
         if isinstance(l, Poly) and isinstance(r, Poly):
             if op == "Add":
                 return l + r
@@ -567,11 +585,25 @@ class Ev:
         return Clo(e["params"], e["body"], env)
 
     def ev_block(self, e, env, depth):
-        env = env  # blocks share the enclosing env; shadowing uses fresh ids so this is safe
-        for s in e["stmts"]:
+        # blocks share the enclosing env; shadowing uses fresh ids so this is safe
+        return self._run_block(e, 0, env, depth)
+
+    def _run_block(self, e, start, env, depth):
+        stmts = e["stmts"]
+        for i in range(start, len(stmts)):
+            s = stmts[i]
             if s["k"] == "let":
                 if "init" in s:
-                    self.bind(s["pat"], self.eval(s["init"], env, depth), env)
+                    v = self.collapse(self.eval(s["init"], env, depth))
+                    if isinstance(v, Alt):
+                        # path split: the rest of the block is evaluated once per alternative
+                        out = []
+                        for g, x in v.alts:
+                            env2 = dict(env)
+                            self.bind(s["pat"], x, env2)
+                            out.append((g, self._run_block(e, i + 1, env2, depth)))
+                        return Alt(out)
+                    self.bind(s["pat"], v, env)
             elif s["k"] in ("expr", "semi"):
                 x = s["e"]
                 if x.get("k") == "assign":
@@ -604,6 +636,12 @@ class Ev:
             lhs = lhs["e"]
         if lhs.get("k") == "path" and lhs.get("res") == "local":
             env[lhs["id"]] = val
+        elif lhs.get("k") == "field":
+            base = self.eval(lhs["e"], env, 0)
+            if isinstance(base, Rec):
+                base.fields[lhs["name"]] = val     # Rec values are shared by reference: this models `self.f = ..`
+            else:
+                raise Unsupported("assignment to a field of an opaque value at line %s" % lhs.get("ln"))
         else:
             raise Unsupported("assignment to a non-local place at line %s" % lhs.get("ln"))
 
@@ -735,7 +773,7 @@ class Ev:
         dk = f.get("dk", "")
         args = [self.eval(a, env, depth) for a in e["args"]]
         for suffix, h in self.hooks.items():
-            if d.endswith(suffix) or f.get("def", "").endswith(suffix):
+            if not suffix.startswith("@") and (d.endswith(suffix) or f.get("def", "").endswith(suffix)):
                 return h(self, args, e)
         if dk.startswith("Ctor"):
             return Sym("ctor", d.rsplit("::", 1)[-1], *args)
@@ -777,7 +815,13 @@ class Ev:
             return Sym("axis", vkey(args[0]))
         if self.facts.fn(d) is not None:
             return self.apply_fn(d, args, depth)
-        raise Unsupported("call to %s not modelled" % d)
+        # opaque: an unmodelled external function of symbolic arguments (can only fail to match an expected form)
+        return Sym("call", d, tuple(vkey(a) for a in args))
+
+    def elem_of(self, container):
+        """Symbolic element of an iterated container, or None if its shape is not declared."""
+        f = self.hooks.get("@elem")
+        return f(container) if f else None
 
     def ev_mcall(self, e, env, depth):
         recv = self.eval(e["recv"], env, depth)
@@ -785,8 +829,28 @@ class Ev:
         m = e["m"]
         d = e.get("resolved") or e.get("callee") or ""
         for suffix, h in self.hooks.items():
-            if d.endswith(suffix):
+            if not suffix.startswith("@") and d.endswith(suffix):
                 return h(self, [recv] + args, e)
+        if m in ("into_iter", "iter") and not args and not isinstance(recv, (Poly, Seq)):
+            el = self.elem_of(recv)
+            if el is not None:
+                return Seq(recv, el)
+        if isinstance(recv, Seq):
+            if m in ("into_iter", "iter", "cloned", "copied", "by_ref") and not args:
+                return recv
+            if m == "enumerate" and not args:
+                return Seq(recv.src, Tup([Poly.atom("i"), recv.elem]), True)
+            if m == "map" and len(args) == 1:
+                f = args[0]
+                if isinstance(f, Clo):
+                    env2 = dict(f.env)
+                    self.bind(f.params[0], recv.elem, env2)
+                    return Seq(recv.src, self.eval(f.body, env2, depth), recv.enumerated)
+                if isinstance(f, Sym) and f.tag[0] == "fn" and self.facts.fn(f.tag[1]) is not None:
+                    return Seq(recv.src, self.apply_fn(f.tag[1], [recv.elem], depth), recv.enumerated)
+                raise Unsupported("map over a function value that is not modelled: %r" % (f,))
+            if m == "collect" and not args:
+                return Sym("collect", vkey(recv))
         if m in ERASE_METHODS and not args:
             return recv
         if any(isinstance(a, Rec) for a in args) and not isinstance(recv, Rec) and self.facts.fn(d) is not None:
@@ -840,8 +904,13 @@ class Ev:
                 return Tup([recv, args[0]])
         if self.facts.fn(d) is not None:
             return self.apply_fn(d, [recv] + args, depth)
+        if m in ("unwrap", "expect") and isinstance(recv, (Tup, Rec, Poly)):
+            return recv
         if m in ("partial_cmp",) and len(args) == 1:
             return Sym("partial_cmp", vkey(recv), vkey(args[0]))
+        if isinstance(recv, Sym):
+            # opaque: an unmodelled method of an opaque value stays an opaque value (it can only fail to match an expected form)
+            return Sym("m", m, vkey(recv), tuple(vkey(a) for a in args))
         raise Unsupported("method %s (%s) on %s not modelled" % (m, d, vfmt(recv)[:80]))
 
 
